@@ -2,6 +2,7 @@ package spine
 
 import (
 	"fmt"
+	"reflect"
 	"sync"
 
 	"github.com/enbility/ship-go/logging"
@@ -70,13 +71,46 @@ func (r *FunctionData[T]) UpdateData(remoteWrite, persist bool, newData *T, filt
 		r.data = new(T)
 	}
 
-	updater := any(r.data).(model.Updater)
+	// Apply the update to a copy of the data that has its own lists. The update changes
+	// the items of the list it is applied to, but the stored data must not change if the
+	// update fails or should not be persisted, and the data sets that were handed out
+	// before (DataCopy, events) share their list with the stored data.
+	dataCopy := r.copyWithOwnLists()
+
+	updater := any(dataCopy).(model.Updater)
 	data, success := updater.UpdateList(remoteWrite, persist, newData, filterPartial, filterDelete)
 	if !success {
 		return nil, model.NewErrorTypeFromString("update failed, likely not allowed to write")
 	}
 
+	if persist {
+		r.data = dataCopy
+	}
+
 	return data, nil
+}
+
+// returns a copy of the data in which every list is a copy of the original list
+func (r *FunctionData[T]) copyWithOwnLists() *T {
+	copiedData := *r.data
+
+	v := reflect.ValueOf(&copiedData).Elem()
+	if v.Kind() != reflect.Struct {
+		return &copiedData
+	}
+
+	for i := 0; i < v.NumField(); i++ {
+		f := v.Field(i)
+		if f.Kind() != reflect.Slice || f.IsNil() || !f.CanSet() {
+			continue
+		}
+
+		list := reflect.MakeSlice(f.Type(), f.Len(), f.Len())
+		reflect.Copy(list, f)
+		f.Set(list)
+	}
+
+	return &copiedData
 }
 
 func (r *FunctionData[T]) DataCopyAny() any {
